@@ -94,6 +94,33 @@ _DEADLINE = None
 MAX_VIOL_PER_KIND_PER_GROUP = 2
 
 
+class _CaseTimeout(BaseException):
+    pass
+
+
+def _on_alarm(signum, frame):
+    raise _CaseTimeout()
+
+
+def _arm(mod):
+    import signal
+
+    try:
+        signal.signal(signal.SIGALRM, _on_alarm)
+        signal.setitimer(signal.ITIMER_REAL, float(getattr(mod, "CASE_TIMEOUT", 120)))
+    except Exception:
+        pass
+
+
+def _disarm():
+    import signal
+
+    try:
+        signal.setitimer(signal.ITIMER_REAL, 0)
+    except Exception:
+        pass
+
+
 def _run_group(args):
     gi, group = args
     mod = _MOD
@@ -119,7 +146,14 @@ def _run_group(args):
                 break
             out["cases"] += 1
             try:
-                r = mod.check(case)
+                _arm(mod)
+                try:
+                    r = mod.check(case)
+                finally:
+                    _disarm()
+            except _CaseTimeout:
+                r = R()
+                r.fail("timeout", "case did not finish within %ss (non-terminating loop?)" % getattr(mod, "CASE_TIMEOUT", 120))
             except Exception as e:  # harness or library crash outside a judged clause
                 r = R()
                 tb = traceback.extract_tb(e.__traceback__)
@@ -266,8 +300,14 @@ def run_check(mod, tier, seed):
             # re-execute from JSON in this (fresh) process before believing it
             case2 = json.loads(canon(case))
             try:
-                again = mod.check(case2) if "group" not in case2 or len(case2) > 1 else None
+                _arm(mod)
+                try:
+                    again = mod.check(case2) if "group" not in case2 or len(case2) > 1 else None
+                finally:
+                    _disarm()
                 kinds = [k for k, _ in again.violations] if again is not None else [kind]
+            except _CaseTimeout:
+                kinds = ["timeout"]
             except Exception as e:
                 tb = traceback.extract_tb(e.__traceback__)
                 where = "%s:%s" % (os.path.basename(tb[-1].filename), tb[-1].name) if tb else "?"
